@@ -78,6 +78,15 @@ def _bearer_id(bearer: att.Bearer) -> str:
         return f'[0x{bearer.handle:04X}]'
 
 
+# An attribute with none of these permissions cannot be written by a peer
+_WRITE_PERMISSIONS = (
+    att.Attribute.WRITEABLE
+    | att.Attribute.WRITE_REQUIRES_ENCRYPTION
+    | att.Attribute.WRITE_REQUIRES_AUTHENTICATION
+    | att.Attribute.WRITE_REQUIRES_AUTHORIZATION
+)
+
+
 def _request_handler_in_task(handler):
     '''
     Run an async request handler in a task. An exception raised by the handler
@@ -1175,7 +1184,17 @@ class Server(utils.EventEmitter):
             )
             return
 
-        # TODO: check permissions
+        # Check permissions (the security requirements are checked when writing)
+        if not attribute.permissions & _WRITE_PERMISSIONS:
+            self.send_response(
+                bearer,
+                att.ATT_Error_Response(
+                    request_opcode_in_error=request.op_code,
+                    attribute_handle_in_error=request.attribute_handle,
+                    error_code=att.ATT_WRITE_NOT_PERMITTED_ERROR,
+                ),
+            )
+            return
 
         # Check the request parameters
         if len(request.attribute_value) > GATT_MAX_ATTRIBUTE_VALUE_SIZE:
@@ -1217,7 +1236,9 @@ class Server(utils.EventEmitter):
         if attribute is None:
             return
 
-        # TODO: check permissions
+        # Check permissions (the security requirements are checked when writing)
+        if not attribute.permissions & _WRITE_PERMISSIONS:
+            return
 
         # Check the request parameters
         if len(request.attribute_value) > GATT_MAX_ATTRIBUTE_VALUE_SIZE:
